@@ -22,9 +22,12 @@ func iterNext(
 func evalIterCall(self object.PanObject) object.PanObject {
 	switch f := self.(type) {
 	case *object.PanFunc:
+		// NOTE: body is evaluated in copied env so that assignments in a step
+		// do not remain in the next step (args are changed only by `recur`)
+		env := object.NewCopiedEnv(f.Env)
 		// inject var `recur`
-		f.Env.InjectRecur(recur(f))
-		retVal := evalStmts(*f.Body(), f.Env)
+		env.InjectRecur(recur(f))
+		retVal := evalStmts(*f.Body(), env)
 
 		if err, ok := retVal.(*object.PanErr); ok {
 			return appendStackTrace(err, (*f.Body())[0].Source())
